@@ -74,7 +74,7 @@ def scenarios(quick):
 
 
 def run(ctx):
-    ctx.budget = ctx.budget or (200 if ctx.quick else 2400)
+    ctx.budget = ctx.budget or (360 if ctx.quick else 2400)
     sc = scenarios(ctx.quick)
     tot = explore_conc.run_scenarios(ctx, 'C06', sc)
     fill(ctx, tot, len(sc), 'three start states (K1 absent / present / K1 and K2 present) x pairs '
